@@ -33,7 +33,7 @@ var Properties = map[string][]string{
 	"C02": {"C02.a", "C02.b", "C01.a"},
 	"C03": {"C03.a", "C03.c", "C03.d", "C01.a"},
 	"C04": {"C04.a", "C04.a3", "C04.b"},
-	"C09": {"C09", "C01.a", "C01.b", "C16.c"},
+	"C09": {"C09", "C09.g", "C01.a", "C01.b", "C16.c"},
 	"C10": {"C07", "C10.scan", "C10.b", "C10.f", "C10.g", "C03.c"},
 	"C05": {"C02.a", "C02.b", "C05.b", "C05.c", "C01.d", "C05.e", "C05.g"},
 	"C07": {"C07"},
